@@ -139,7 +139,8 @@ class PubSubRun:
             rid = ch.choose("con.badid", [101, 150, 200, -1, -32768, 32767, 99, 1])
         logger = ch.flag("con.logger", 1, 6) and not getattr(self, "plain_monitor", False)
         multi = ch.flag("con.multi", 1, 4)
-        nm = ch.weighted("con.name", [(5, b""), (2, b"shared"), (2, b"n%d" % len(self.actors))])
+        nm = ch.weighted("con.name", [(10, b""), (4, b"shared"), (4, b"n%d" % len(self.actors)), (1, b"caf\xc3\xa9"),
+                                      (1, b"\xff\xfe")])
         if proto == "v1":
             multi = False
             nm = b""
